@@ -41,6 +41,7 @@ var engName = [2]string{"interpreter", "compiler"}
 type harness struct {
 	ctx      context.Context
 	rts      [2][]wazero.Runtime
+	lrts     [2][2][]wazero.Runtime // lazy-consumer runtimes (names.go): [order B / order C][engine][feature set]
 	stubs    [2][]map[string]wazero.CompiledModule
 	deadline time.Duration
 	prog     *progress
